@@ -4014,10 +4014,15 @@ def _search_site_tolerance(ctx, am):
         if atol > 0.2:
             # (atol is also what the family test compares lattice constants and angles with)
             case['check_family'] = False
+        if setting[0] == 't' and case['check_basis'] and atol < 0.05 and (k // 8) % 2 == 0:
+            # the self-detecting 't': both of its site tests must get the caller's tolerances (below 0.05 length units no
+            # motif atom on the sixteenths grid can pass for a site of the other rhombohedral setting)
+            case['call_setting'] = 't'
         ctx.stats.case('oracle:conversion-site-atol', (setting, repr(case['stored']), repr(atol), repr(case['vects'])),
                        sample={'op': 'c2p->p2c', 'setting': setting, 'family': case['family'], 'atol': atol,
                                'site_atoms_off_by': dist, 'check_basis': case['check_basis']})
         ctx.extra['site_atol_cases'] = ctx.extra.get('site_atol_cases', 0) + 1
+        ctx.extra['site_atol_self_detecting_t'] = ctx.extra.get('site_atol_self_detecting_t', 0) + (case['call_setting'] == 't')
         _run_conversion(ctx, am, case)
 
 
